@@ -111,7 +111,10 @@ def wait_rows(sess, want_len, cap=60.0, sentinel=None):
             continue
         quiet = time.monotonic() - since
         seen = sentinel is None or (rows is not None and any(r["icao"] == "%06x" % sentinel for r in rows))
-        if rows is not None and ((seen and quiet > 0.5 and (want_len is None or len(rows) >= want_len)) or quiet > 8.0):
+        # (without a sentinel "nothing changes any more" ends the wait; with one, only the sentinel
+        # or the cap does: on a loaded machine a client can stand still for seconds, and a table
+        # taken then would be a verdict by wall clock)
+        if rows is not None and ((seen and quiet > 0.5 and (want_len is None or len(rows) >= want_len)) or (sentinel is None and quiet > 8.0)):
             return rows
     return sess.airplanes_rows()
 
